@@ -21,7 +21,7 @@ RULE = ('lists of 0..3 JSON objects built from a value alphabet {0, -1, 2^63-1, 
         '(every pair of cut positions of the written bytes), as file object and through a custom open_obj; plus real files whose '
         'size is stepped so that the 64 KiB read boundary lands on every byte of a 4-byte character and on the newline. '
         'Non-trivial = schedule with at least one short read; states = distinct (compression, cut position class) situations.')
-DEEP_PROBES = ('empty-dict objects; 300 objects; 70 000-character strings (gzip expansion > 512:1); strings containing NaN / Infinity / U+FEFF; files of exactly 65 535 / 65 536 / 65 537 / 131 072 bytes; U+FEFF and a 4-byte character slid across the 64 KiB boundary')
+DEEP_PROBES = ('dump_to_file and load_from_file observables subscribed twice (custom open_obj: same bytes written again, same items loaded again); empty-dict objects; 300 objects; 70 000-character strings (gzip expansion > 512:1); strings containing NaN / Infinity / U+FEFF; files of exactly 65 535 / 65 536 / 65 537 / 131 072 bytes; U+FEFF and a 4-byte character slid across the 64 KiB boundary')
 ASSUMPTIONS = ['objects are dicts (a top-level null line is skipped by load by design)', 'read schedules with at most 2 short reads']
 LEVEL_TEXT = ('Bounded-exhaustive model checking over inputs x read schedules of the real file/codec/framing/JSON chain with the '
               'environment answers (short reads) owned by the harness device.')
@@ -115,6 +115,25 @@ def run_case(case, acc):
         return [viol(comp, 'custom-open_obj-writes-other-bytes', {'objects': objs, 'error': repr(s2.error)})]
     if dev2.closed != 1:
         acc.count('dump_close_calls_not_1')       # informational: the property does not speak about closing
+    # the same dump / load observables subscribed a second time: the same bytes again, the same objects again
+    devs = []
+
+    def opener(f, mode, encoding=None, **kw):
+        devs.append(Device() if 'w' in mode else Device(data))
+        return devs[-1]
+    dump_obs = rx.from_(objs).pipe(rsjson.dump_to_file(NOWHERE, compression=comp, open_obj=opener))
+    for _ in (1, 2):
+        RawSink().subscribe_to(dump_obs)
+    if len(devs) != 2 or devs[0].content() != data or devs[1].content() != data:
+        return [viol(comp, 'second-subscription-of-dump_to_file-writes-other-bytes', {'objects': objs, 'files_opened': len(devs)})]
+    load_obs = rsjson.load_from_file(NOWHERE, compression=comp, open_obj=opener)
+    for n_sub in (1, 2):
+        r = RawSink()
+        r.subscribe_to(load_obs)
+        if r.error is not None or r.items != objs:
+            return [viol(comp, 'subscription-%d-of-load_from_file-differs' % n_sub, {'objects': objs, 'loaded': r.items, 'error': repr(r.error)})]
+    acc.evals += 4
+    acc.count('second_subscriptions')
     L = len(data)
     pos = list(range(1, L))
     if L > 40:
